@@ -803,18 +803,16 @@ class DataFrameSchemaBackend(PandasSchemaBackend):
     @validate_scope(scope=ValidationScope.DATA)
     def check_column_values_are_unique(
         self, check_obj: pd.DataFrame, schema
-    ) -> CoreCheckResult:
+    ) -> List[CoreCheckResult]:
         """Check that column values are unique."""
 
-        passed = True
-        message = None
-        failure_cases = None
-
         if not schema.unique:
-            return CoreCheckResult(
-                passed=passed,
-                check="dataframe_column_labels_unique",
-            )
+            return [
+                CoreCheckResult(
+                    passed=True,
+                    check="dataframe_column_labels_unique",
+                )
+            ]
 
         # NOTE: fix this pylint error
         # pylint: disable=not-an-iterable
@@ -824,6 +822,9 @@ class DataFrameSchemaBackend(PandasSchemaBackend):
             if all(isinstance(x, str) for x in schema.unique)
             else schema.unique
         )
+        # one result per violated constraint: the lazy report and
+        # drop_invalid_rows need the duplicated rows of every one of them
+        results = []
         for lst in temp_unique:
             subset = [x for x in lst if x in check_obj]
             if not subset:
@@ -847,17 +848,25 @@ class DataFrameSchemaBackend(PandasSchemaBackend):
                 else:
                     failure_cases = check_obj.loc[duplicates, subset]
 
-                passed = False
-                message = f"columns '{*subset,}' not unique:\n{failure_cases}"
-                # null cells of rows that repeat each other are duplicates too
-                failure_cases = reshape_failure_cases(
-                    failure_cases, ignore_na=False
+                results.append(
+                    CoreCheckResult(
+                        passed=False,
+                        check="multiple_fields_uniqueness",
+                        reason_code=SchemaErrorReason.DUPLICATES,
+                        message=(
+                            f"columns '{*subset,}' not unique:\n{failure_cases}"
+                        ),
+                        # null cells of rows that repeat each other are
+                        # duplicates too
+                        failure_cases=reshape_failure_cases(
+                            failure_cases, ignore_na=False
+                        ),
+                    )
                 )
-                break
-        return CoreCheckResult(
-            passed=passed,
-            check="multiple_fields_uniqueness",
-            reason_code=SchemaErrorReason.DUPLICATES,
-            message=message,
-            failure_cases=failure_cases,
-        )
+        return results or [
+            CoreCheckResult(
+                passed=True,
+                check="multiple_fields_uniqueness",
+                reason_code=SchemaErrorReason.DUPLICATES,
+            )
+        ]
